@@ -17,6 +17,7 @@ EXPLANATION = (
     "get_conditionals. NOT claimed: that evaluate_conditional / get_conditionals cover the region above threshold and "
     "match the true conditional (data-dependent search over an arbitrary function, unimodality premise) - outside reach."
     " Conditional unit: the object through which get_conditionals evaluates every grid point returns, for an arbitrary (uninterpreted) posterior, the posterior at the conditioning point with only the current variable replaced, across re-pointing from variable to variable and back, and never changes the caller's conditioning point."
+    " Also executed: get_conditionals up to the hand-over to evaluate_conditional (the search points span the bounds, contain the conditioning coordinate and the function searched is the right conditional); the bisection of the threshold search for a bounded number of iterations on an uninterpreted function (result unchanged by an additive constant of the log-density, inside the bracket, within the absolute tolerance when stopped early); trapezium_transform on mixtures of flat and sloped cells (entry k solves entry k's own quadratic). Still not claimed: that the refined grid of evaluate_conditional covers the region above threshold for an arbitrary function."
 )
 BOUNDS = {"quick": "tables of 2..3 cells, 1..2 samples", "thorough": "4 cells, 2 samples"}
 ASSUMPTIONS = [
